@@ -153,7 +153,11 @@ def case_export(run, i):
         from ..monitors import cli_plumb
         show = ["all", "variant", "ploidy"][(i // 4) % 3]
         r = cli_plumb.check_cli(run, rt, E, "export_bed", ["export", "bed", segf, "--show", show, "-o", os.path.join(d, "p.bed")] + common,
-                                dict(ploidy=ploidy, is_haploid_x_reference=male_ref, is_sample_female=female, diploid_parx_genome=par, show=show, label="SampleA"), "export-bed")
+                                dict(dict(ploidy=ploidy, show=show, label="SampleA"),
+                                     # only what the requested mode reads is demanded: the sample sex and the PAR genome matter for --show variant alone,
+                                     # the reference sex only when copy numbers must be derived from log2 (no cn column)
+                                     **(dict(is_sample_female=female, diploid_parx_genome=par) if show == "variant" else {}),
+                                     **(dict(is_haploid_x_reference=male_ref) if "cn" not in cols else {})), "export-bed")
         if r is not None:
             cli_plumb.held(run, "export-bed", "cli-export-bed")
         r = cli_plumb.check_cli(run, rt, E, "export_vcf", ["export", "vcf", segf, "-o", os.path.join(d, "p.vcf"), "-i", "LBL"] + common,
